@@ -90,6 +90,13 @@ func (w *World) errValueConsumed(e, root ssa.Value, opts errOpts, seen map[ssa.V
 						// is decided by the path analysis below, not by this one return
 						continue
 					}
+					// untested: EVERY way from the call to an exit must hand this value
+					// back — a return of nil / of another error reached without a test
+					// drops it on that way (`if done { return n, err }` … `return m, nil`)
+					if esc := w.escapesUnreturned(e); esc != "" {
+						reasons = append(reasons, "returned at "+w.instrPos(x)+" on some ways only: "+esc)
+						continue
+					}
 					return true, "forwarded by return at " + w.instrPos(x)
 				}
 			}
@@ -687,4 +694,91 @@ func capturedCell(fv *ssa.FreeVar) *ssa.Alloc {
 		}
 	}
 	return nil
+}
+
+// escapesUnreturned: e (an error value that is never tested against nil) is
+// defined in block B; some return reachable from B answers an error result
+// that does not derive from e.  "" if every reachable return hands e back.
+func (w *World) escapesUnreturned(e ssa.Value) string {
+	in, ok := e.(ssa.Instruction)
+	if !ok || in.Block() == nil {
+		return ""
+	}
+	derives := func(res ssa.Value) bool {
+		seen := map[ssa.Value]bool{}
+		var d func(v ssa.Value) bool
+		d = func(v ssa.Value) bool {
+			if v == e {
+				return true
+			}
+			if seen[v] {
+				return false
+			}
+			seen[v] = true
+			switch x := v.(type) {
+			case *ssa.Phi:
+				for _, ed := range x.Edges {
+					if d(ed) {
+						return true
+					}
+				}
+			case *ssa.ChangeInterface:
+				return d(x.X)
+			case *ssa.MakeInterface:
+				return d(x.X)
+			case *ssa.Call:
+				// wrapped: a call given the error (fmt.Errorf("…%w", err), newCodecError(…, err))
+				for _, a := range x.Call.Args {
+					if d(a) {
+						return true
+					}
+					if sl, ok := a.(*ssa.Slice); ok {
+						// variadic: the error sits in the backing array
+						if al, ok := sl.X.(*ssa.Alloc); ok {
+							for _, ref := range *al.Referrers() {
+								if ia, ok := ref.(*ssa.IndexAddr); ok {
+									for _, r2 := range *ia.Referrers() {
+										if st, ok := r2.(*ssa.Store); ok && d(st.Val) {
+											return true
+										}
+									}
+								}
+							}
+						}
+					}
+				}
+			case *ssa.UnOp:
+				// spilled named result: loaded from a cell the error was stored to
+				if al, ok := x.X.(*ssa.Alloc); ok {
+					for _, ref := range *al.Referrers() {
+						if st, ok := ref.(*ssa.Store); ok && st.Addr == ssa.Value(al) && d(st.Val) {
+							return true
+						}
+					}
+				}
+			}
+			return false
+		}
+		return d(res)
+	}
+	start := in.Block()
+	seenB := map[*ssa.BasicBlock]bool{}
+	work := []*ssa.BasicBlock{start}
+	for len(work) > 0 {
+		b := work[0]
+		work = work[1:]
+		if seenB[b] {
+			continue
+		}
+		seenB[b] = true
+		if ret, ok := b.Instrs[len(b.Instrs)-1].(*ssa.Return); ok {
+			for _, res := range ret.Results {
+				if isErrorType(res.Type()) && !derives(res) {
+					return "the return at " + w.instrPos(ret) + " is reachable from the call without any test of the error and answers " + describeVal(res, nil) + " instead"
+				}
+			}
+		}
+		work = append(work, b.Succs...)
+	}
+	return ""
 }
